@@ -1005,6 +1005,86 @@ class Normaliser:
         inside = {id(x) for x in ast.walk(comp)}
         return any(isinstance(x, ast.Name) and x.id == name and id(x) not in inside for x in ast.walk(self.fn))
 
+    def _calls_through_locals(self) -> bool:
+        """`v(args)` where every binding of the local v is `v = <function / bound method>` (several of them, chosen by branches): each
+        binding also records which one it is (`v__sel<k> = i`, a fresh integer local) and the statement with the call is written once
+        per binding, with the function in place of v, chosen by that integer.  Exact; the callees become visible to the flattener
+        and the guard analyses relate the call to the branch that chose the function (the engine does the same for the definitions
+        it sees itself, but not for the ones that only appear after a table lookup has been written out here)."""
+        cands: Dict[str, List[ast.stmt]] = {}
+        for name, bs in self.binds.items():
+            if len(bs) < 2 or len(bs) > 12:
+                continue
+            if not all(isinstance(b, (ast.Assign, ast.AnnAssign)) and b.value is not None and not isinstance(b.value, ast.IfExp) and self.is_function_ref(b.value)
+                       for b in bs):
+                continue
+            cands[name] = list(bs)
+        if not cands:
+            return False
+
+        def plain_call_of(st: ast.stmt) -> Optional[str]:
+            if not isinstance(st, (ast.Assign, ast.AnnAssign, ast.AugAssign, ast.Expr, ast.Return)):
+                return None
+            hidden = {id(y) for x in ast.walk(st) if isinstance(x, COMPS + (ast.Lambda,)) for y in ast.walk(x)}
+            for x in ast.walk(st):
+                if isinstance(x, ast.Call) and isinstance(x.func, ast.Name) and x.func.id in cands and id(x) not in hidden:
+                    return x.func.id
+            return None
+
+        did = [False]
+        sel: Dict[str, str] = {}
+        index: Dict[int, Tuple[str, int]] = {}
+        for name, bs in cands.items():
+            for i, b in enumerate(bs):
+                index[id(b)] = (name, i + 1)
+
+        def rewrite(stmts: List[ast.stmt]) -> List[ast.stmt]:
+            out: List[ast.stmt] = []
+            for st in stmts:
+                if isinstance(st, (ast.FunctionDef, ast.AsyncFunctionDef, ast.ClassDef)):
+                    out.append(st)
+                    continue
+                for fld in ("body", "orelse", "finalbody"):
+                    sub = getattr(st, fld, None)
+                    if isinstance(sub, list) and sub and isinstance(sub[0], ast.stmt):
+                        setattr(st, fld, rewrite(sub))
+                for h in getattr(st, "handlers", []) or []:
+                    h.body = rewrite(h.body)
+                out.append(st)
+                if id(st) in index:
+                    name, i = index[id(st)]
+                    if name in sel:
+                        out.append(ast.copy_location(ast.Assign(targets=[ast.Name(id=sel[name], ctx=ast.Store())], value=ast.Constant(value=i), lineno=st.lineno), st))
+                    continue
+                name = plain_call_of(st)
+                if name is None or name not in sel:
+                    continue
+                out.pop()
+                chain: Optional[ast.stmt] = None
+                for i, b in reversed(list(enumerate(cands[name], 1))):
+                    variant = copy.deepcopy(st)
+                    for x in ast.walk(variant):
+                        if isinstance(x, ast.Call) and isinstance(x.func, ast.Name) and x.func.id == name:
+                            x.func = _relocate(copy.deepcopy(b.value), x.func)
+                    if chain is None:
+                        chain = variant
+                    else:
+                        test = ast.Compare(left=ast.Name(id=sel[name], ctx=ast.Load()), ops=[ast.Eq()], comparators=[ast.Constant(value=i)])
+                        chain = ast.copy_location(ast.If(test=test, body=[variant], orelse=[chain]), st)
+                out.append(chain)
+                did[0] = True
+            return out
+
+        used = {name for name in cands if any(plain_call_of(st) == name for st in ast.walk(self.fn) if isinstance(st, ast.stmt))}
+        if not used:
+            return False
+        k = next(_fresh)
+        for name in used:
+            sel[name] = f"{name}__sel{k}"
+        self.fn.body = rewrite(self.fn.body)
+        ast.fix_missing_locations(self.fn)
+        return did[0]
+
     def _replace_stmt(self, old: ast.stmt, new: ast.stmt) -> None:
         for n in ast.walk(self.fn):
             for fld in ("body", "orelse", "finalbody"):
@@ -1023,6 +1103,9 @@ class Normaliser:
                 any_change = True
                 self._scan()
             if self._comprehension_variables_apart():
+                any_change = True
+                self._scan()
+            if self._calls_through_locals():
                 any_change = True
                 self._scan()
             self.changed = False
